@@ -844,6 +844,10 @@ pub fn arb_xb_wide(n: usize) -> BoxedStrategy<XB> {
             v.truncate(40);
             XB::FromCubes(v)
         }),
+        // over all 32 variables from_cubes also accepts contradictory cubes (x & !x): legal there only
+        2 => vec(arb_cb(std::cmp::min(n, 32)), 0..=4).prop_map(move |v| {
+            if n == 32 { XB::FromCubes(v) } else { XB::FromCubes(v.into_iter().filter(|c| c.model() != CubeM::Zero).collect()) }
+        }),
     ];
     leaf.prop_recursive(3, 10, 2, |inner| {
         prop_oneof![
